@@ -24,6 +24,10 @@ CHECKS = {
                 technique="symbolic execution of compiled Fex + SMT: element- and charge-weighted sums of ydot are identically zero for enumerated balanced networks",
                 text="For exhaustively enumerated balanced reactions over four molecule pools (ions, both electron spellings, o/p labels, isotopologues, ice/gas pairs) z3 shows sum_s c_e(s)*ydot_s != 0 unsat for each element and for charge, for all y and k, on all back-ends.",
                 note="As C01. Element counts and charges of species are taken from the generator's own Species objects (their correctness is C08's subject)."),
+    "C19": dict(engine=E1, cat="model_checking", sec="6 C19",
+                technique="bounded model checking of the compiled Solve/HandleError IR with a nondeterministic integrator stub (symbolic flags and partial times, merged states) + one SMT-discharged inductive step per recovery level (loop back edge cut); scripted-mock native replay",
+                text="Every fault sequence over the recovery ladder is covered by (base) Solve up to HandleError establishes the invariant, (step) from any invariant state one level either returns SUCCESS with exactly y0+dt, returns FAIL, or re-establishes the invariant, with every flag an arbitrary integer and every partial time an arbitrary real; plus end-to-end monolithic queries and concrete-flag/symbolic-time scripts through all five levels; odeint Observer and Solve are decided on their compiled IR.",
+                note="Integrator contract is an assumption (state = exact solution at the returned time); pow/log10 are uninterpreted with round-trip and monotonicity axioms; 2-equation project (the ladder does not depend on the network); cusparse Solve and the PyWrapSolve wrappers are outside the encoded set."),
 }
 
 NOT_APPLICABLE = {
